@@ -435,7 +435,9 @@ fn corrupt(rng: &mut Rng, d: &mut gen::DictSrc) -> String {
         7 => {
             // a number out of range
             let text = String::from_utf8_lossy(&bytes).to_string();
-            let big = *rng.pick(&["65536", "70000", "-1", "32768", "-32769", "99999999999999999999", "+3", "1.5", "0x1"]);
+            let big = *rng.pick(&["65536", "70000", "-1", "32768", "-32769", "99999999999999999999", "+3", "1.5", "0x1",
+                                  // around the widths of usize: products such as `left_id * num_right` must not be formed before the range check
+                                  "9223372036854775808", "18446744073709551615", "18446744073709551616", "4611686018427387904", "4294967296"]);
             let mut out = String::new();
             let mut done = false;
             for tok in text.split_inclusive(|c: char| c == ',' || c == ' ' || c == '\n') {
